@@ -103,9 +103,16 @@ def build_source(case, ux):
     if "file" in case:
         return ux.open_grid(str(common.REPO / case["file"]))
     kw = {}
-    if case.get("supplied"):
-        kw = dict(edge_node_connectivity=np.array(case["supplied"]["EN"], dtype=np.int64),
-                  face_edge_connectivity=np.array(case["supplied"]["FE"], dtype=np.int64))
+    sup = case.get("supplied")
+    if sup:
+        # the source's own edge table (a permutation of the derived rows, random orientation per row), with or without its
+        # face_edge table, and edge centres given on THAT numbering
+        kw = dict(edge_node_connectivity=np.array(sup["EN"], dtype=np.int64))
+        if sup.get("pass_fe", True):
+            kw["face_edge_connectivity"] = np.array(sup["FE"], dtype=np.int64)
+        if "edge_lon" in sup:
+            kw["edge_lon"] = np.array(sup["edge_lon"], dtype=float)
+            kw["edge_lat"] = np.array(sup["edge_lat"], dtype=float)
     return ux.Grid.from_topology(node_lon=np.array(case["lon"], dtype=float), node_lat=np.array(case["lat"], dtype=float),
                                  face_node_connectivity=np.array(case["table"], dtype=np.int64), fill_value=INT_FILL, **kw)
 
@@ -411,6 +418,32 @@ def judge_step(ctx, case, step, prev, depth):
     N = [int(x) for x in g.n_nodes_per_face.values]
     w = len(t[0])
     n_node = int(g.n_node)
+    truth_EF_rows = None
+    if depth == 0 and case.get("supplied"):
+        # the source's OWN edge table must survive the selection row for row (same order, same orientation), the faces' edges
+        # must refer to its numbering, and so must the edge centres it came with
+        sup0 = case["supplied"]
+        ENt, FEt = [tuple(p) for p in sup0["EN"]], [list(r) for r in sup0["FE"]]
+        ctx.hit("supplied:edge_node+face_edge" if sup0.get("pass_fe", True) else "supplied:edge_node-only")
+        if EN != ENt:
+            moved = sum(1 for a, b in zip(EN, ENt) if a != b) if len(EN) == len(ENt) else -1
+            fail("source-edge-table-replaced", "after the selection the source's edge_node_connectivity is no longer the table it was "
+                 f"constructed with ({moved} rows differ): edge coordinates, edge-centred data and recorded edge indices refer to another "
+                 "numbering", dict(edge_node_connectivity=EN), dict(supplied=ENt), ["slice_keeps_supplied_edges"])
+            return
+        if FE != FEt:
+            fail("source-face-edge-not-in-supplied-numbering", "face_edge_connectivity of the source does not point into the supplied "
+                 "edge table", dict(face_edge_connectivity=FE), dict(expected=FEt), ["slice_keeps_supplied_edges"])
+            return
+        if "edge_lon" in sup0 and not (np.array_equal(g.edge_lon.values, np.array(sup0["edge_lon"])) and
+                                       np.array_equal(g.edge_lat.values, np.array(sup0["edge_lat"]))):
+            fail("source-edge-centres-changed", "the source's supplied edge_lon / edge_lat changed during the selection")
+            return
+        lk = d.ask("C09.lookupfe", enc_rows(t), enc_pairs(ENt))
+        if lk == "none" or common.Tok(lk.split(" ", 1)[1]).rows() != FEt:
+            ctx.mismatch("C09/lookupFE(model of the face-edge lookup in a supplied table)", case, FEt, lk)
+        tef = common.Tok(d.ask("C09.edgeface", enc_rows(FEt), enc_ints(N), len(ENt))).pairs()
+        truth_EF_rows = [[a, b] for a, b in tef]
 
     if sel["kind"] == "lat":
         # the doubles the implementation compares: the grid's OWN node z (edge_node_z = node_z[edge_node_connectivity]) and
@@ -497,7 +530,15 @@ def judge_step(ctx, case, step, prev, depth):
                 ok = d.ask("C09.touch", enc_rows(NF), enc_ints(ind), enc_ints(rec_f))
             else:
                 EF = pairs_of(g.edge_face_connectivity.values)
-                ok = d.ask("C09.touch", enc_rows([[a, b] for a, b in EF]), enc_ints(ind), enc_ints(rec_f))
+                ef_rows = [[a, b] for a, b in EF]
+                if truth_EF_rows is not None:
+                    # the faces on SUPPLIED row k (Lean's edge-face table of the supplied face_edge table)
+                    if [sorted(r) for r in ef_rows] != [sorted(r) for r in truth_EF_rows]:
+                        fail("source-edge-face-not-on-supplied-numbering", "edge_face_connectivity of the source does not list, for each "
+                             "supplied edge row, the faces on that edge", ef_rows, truth_EF_rows, ["slice_keeps_supplied_edges"])
+                        return
+                    ef_rows = truth_EF_rows
+                ok = d.ask("C09.touch", enc_rows(ef_rows), enc_ints(ind), enc_ints(rec_f))
             if ok != "1":
                 fail(f"{kind}/selection", f"{kind}: the faces of the subset are not exactly the faces touching the selected {elem}s "
                      "(reference points inside the region)", dict(faces=rec_f), dict(selected=ind), ["selection"])
@@ -574,7 +615,8 @@ def judge_step(ctx, case, step, prev, depth):
         sup = case.get("supplied") if depth == 0 else dict(EN=[list(p) for p in EN], FE=FE)
         hist_codes = [8 if is_chunk(h) else SM_VARS.index(h) for h in hist_done if h in SM_VARS or is_chunk(h)]
         order = [SM_VARS.index(h) for h in step.get("order", []) if h in SM_VARS]
-        vw = d.ask("C09.view", w, enc_rows(t), 1 if sup else 0, enc_pairs(sup["EN"] if sup else []), enc_rows(sup["FE"] if sup else []),
+        supc = 0 if not sup else 1 if sup.get("pass_fe", True) else 2
+        vw = d.ask("C09.view", w, enc_rows(t), supc, enc_pairs(sup["EN"] if sup else []), enc_rows(sup["FE"] if supc == 1 else []),
                    enc_ints(hist_codes), 0, enc_ints(idx), enc_ints(order))
         if vw == "raises":
             ctx.mismatch("C09/state-machine(model raises)", case, incobs, None)
@@ -742,9 +784,11 @@ def supplied_tables(rng, g):
     perm = list(range(len(EN)))
     rng.shuffle(perm)  # new -> old
     inv = {old: new for new, old in enumerate(perm)}
-    EN2 = [EN[o] if rng.random() < 0.5 else (EN[o][1], EN[o][0]) for o in perm]
+    EN2 = [EN[o] if rng.random() < 0.5 else (EN[o][1], EN[o][0]) for o in perm]  # larger node first in about half
     FE2 = [[INT_FILL if e == INT_FILL else inv[e] for e in r] for r in FE]
-    return dict(EN=[list(p) for p in EN2], FE=FE2)
+    elon, elat = g.edge_lon.values, g.edge_lat.values
+    return dict(EN=[list(p) for p in EN2], FE=FE2, pass_fe=rng.random() < 0.5,
+                edge_lon=[float(elon[o]) for o in perm], edge_lat=[float(elat[o]) for o in perm])
 
 
 def random_selection(rng, g, n_edge):
@@ -807,7 +851,9 @@ def random_case(ctx, m, ux, supplied=None, thorough_geo=False):
         supplied = rng.random() < 0.25
     if supplied:
         case["supplied"] = supplied_tables(rng, g0)
-    pool = [v for v in VARS if not (supplied and v in ("edge_node_connectivity", "face_edge_connectivity"))] + GEO_CHEAP \
+    en_only = bool(supplied) and not case["supplied"].get("pass_fe", True)
+    pool = [v for v in VARS if not (supplied and (v == "edge_node_connectivity" or (v == "face_edge_connectivity" and not en_only)))] \
+        + GEO_CHEAP \
         + NEIGHBOUR_GEO + ["face_areas"] + (["bounds"] if m.n_face <= 12 and rng.random() < 0.25 else [])
     style = rng.choice(["none", "all", "random", "random", "one"])
     if style == "none":
@@ -826,6 +872,8 @@ def random_case(ctx, m, ux, supplied=None, thorough_geo=False):
     rng.shuffle(order)
     case["order"] = order
     case["geo"] = rng.sample(GEO_CHEAP, 5) + (GEO_SLOW if thorough_geo else [])
+    if supplied:
+        case["geo"] = sorted(set(case["geo"]) | {"edge_lon", "edge_lat", "edge_node_distances"})
     # which attributes of the subset are compared with the subset of a FRESH parent (history independence)
     twin = [a for a in ALL_DERIVED if a != "bounds" and rng.random() < 0.6] + (["bounds"] if "bounds" in hist else [])
     if "edge_face_distances" in hist and "edge_face_distances" not in twin:
@@ -1015,7 +1063,9 @@ def threads_subprocess(ctx):
 def run(ctx):
     import uxarray as ux
 
-    ctx.rule = ("source = mesh from harness/meshes.zoo (25% with their own shuffled / re-oriented edge tables) or the MPAS sample; "
+    ctx.rule = ("source = mesh from harness/meshes.zoo (25% with their own edge table: a random permutation of the derived rows, each row in "
+                "random orientation, half of them without face_edge_connectivity, with edge_lon / edge_lat on that numbering; judged: the "
+                "source's table survives every selection row for row) or the MPAS sample; "
                 "history = none / one / random / all of 7 connectivity + 15 geometric variables (+ edge_face_distances, face_areas, bounds) "
                 "materialised in random order, in 30% of the sources with Grid.chunk(random n_node / n_edge / n_face) applied at a random point "
                 "of the history (dask-backed arrays; the un-chunked, un-materialised twin gives the reference); selection = "
